@@ -13,6 +13,7 @@ SIG = {
     'f': 'ss', 'g': 'ss', 'h': 'sss',
     'w': 'ssss',
     'var': 's', 'app': 'cc', 'lam': 'bc', 'k': 'ss', 'u': 'c', 'j': 'ss', 't3': 'sss', 's3': 'sss', 'm3': 'sss', 'at': 'sc',
+    'mvar': 's', 'madd': 'cc', 'mmul': 'cc', 'msum': 'bc', 'mlet': 'bcc',
 }
 
 def canon(t, env=None, depth=0):
